@@ -60,6 +60,12 @@ type c08Case struct {
 	AttrAttrVal int   `json:"attr_attr_val"` // special string in attribute-valued fields (FriendlyName, SessionIndex)
 	PrefixList  bool  `json:"prefix_list"`
 	Wrap64      bool  `json:"wrap64"` // base64 of digest, signature and certificate broken into 64-character lines
+	// C14NA (placement both): the assertion signatures use canonicaliser AllC14N[C14NA-1] while
+	// the Response signature uses AllC14N[C14N]; 0 = the same one
+	C14NA int `json:"c14n_assertion,omitempty"`
+	// PartSigned (placement both, N>1): 1 = only the first assertion carries its own signature,
+	// 2 = only the last (the Response signature covers them all)
+	PartSigned int `json:"part_signed,omitempty"`
 }
 
 func c08Key(alg int) string {
@@ -129,8 +135,15 @@ func c08Spec(c c08Case) idp.ResponseSpec {
 		r.Sign = sign
 	}
 	if c.Placement == 1 || c.Placement == 2 {
+		asign := sign
+		if c.Placement == 2 && c.C14NA != 0 {
+			asign.C14N = idp.AllC14N[c.C14NA-1]
+		}
 		for i := range r.Assertions {
-			r.Assertions[i].Sign = sign
+			if c.Placement == 2 && ((c.PartSigned == 1 && i != 0) || (c.PartSigned == 2 && i != len(r.Assertions)-1)) {
+				continue
+			}
+			r.Assertions[i].Sign = asign
 		}
 	}
 	r.Layout.Prefix = c.Prefix
@@ -389,6 +402,12 @@ func c08Gen(ch *mc.Chooser) c08Case {
 	c.AttrAttrVal = ch.Choose("attr-attr-val", len(c08AttrVals))
 	c.PrefixList = ch.Bool("prefix-list")
 	c.Wrap64 = ch.Bool("wrap64")
+	if c.Placement == 2 {
+		c.C14NA = ch.Choose("c14n-assertion", len(idp.AllC14N)+1)
+		if c.N > 1 {
+			c.PartSigned = ch.Choose("part-signed", 3)
+		}
+	}
 	return c
 }
 
@@ -420,6 +439,22 @@ func c08Cases(r *mc.Run) []c08Case {
 		cases = append(cases, c)
 	})
 	r.Set("algorithm_product", len(cases))
+	// (a') both placements signed with different canonicalisers (and signed comments, which only
+	// the WithComments variants keep), one and two assertions, all or only one of them signed
+	na := len(cases)
+	mc.Enumerate(-1, r.Expired, func(ch *mc.Chooser) {
+		c := c08Case{N: 1, Placement: 2}
+		c.C14N = ch.Choose("c14n", len(idp.AllC14N))
+		c.C14NA = ch.Choose("c14n-assertion", len(idp.AllC14N)+1)
+		c.Comments = []int{0, 1, 4}[ch.Choose("comments", 3)]
+		c.N = 1 + ch.Choose("n", 2)
+		if c.N > 1 {
+			c.PartSigned = ch.Choose("part-signed", 3)
+		}
+		c.PrefixList = ch.Bool("prefix-list")
+		cases = append(cases, c)
+	})
+	r.Set("mixed_canonicaliser_product", len(cases)-na)
 	// (b) deviation-bounded layouts and contents
 	bound := 2
 	if r.Thorough() {
@@ -436,7 +471,7 @@ func c08Cases(r *mc.Run) []c08Case {
 }
 
 func c08Run(r *mc.Run) {
-	r.Rule = "full product signing placement(3) x signature method(4) x digest(4) x canonicaliser(6) on the default document, plus every combination of <=2 (quick) / <=3 (thorough) deviations over 28 layout/content dimensions (placement, c14n, 4 prefix styles, pretty-printing, DEFLATE, 11 lexical re-layouts, comments in signed text, 1-3 assertions, two AttributeStatements, 5 attribute shapes, 6 AuthnStatement shapes, InResponseTo, 12 NameID strings, 12 attribute-value strings, 7 attribute-valued strings, InclusiveNamespaces prefix list, base64 of digest/signature/certificate wrapped at 64 columns); each lexical re-layout is machine-checked to preserve the parse; non-trivial = accepted and compared field-for-field with the generating spec; distinct = distinct case"
+	r.Rule = "full product signing placement(3) x signature method(4) x digest(4) x canonicaliser(6) on the default document, plus the full product (placement both) Response canonicaliser(6) x assertion canonicaliser(same + 6) x signed comments(3) x 1-2 assertions x which assertions carry their own signature(3) x InclusiveNamespaces list(2), plus every combination of <=2 (quick) / <=3 (thorough) deviations over 30 layout/content dimensions (placement, c14n, a different assertion c14n, partially signed assertions, 4 prefix styles, pretty-printing, DEFLATE, 11 lexical re-layouts, comments in signed text, 1-3 assertions, two AttributeStatements, 5 attribute shapes, 6 AuthnStatement shapes, InResponseTo, 12 NameID strings, 12 attribute-value strings, 7 attribute-valued strings, InclusiveNamespaces prefix list, base64 of digest/signature/certificate wrapped at 64 columns); each lexical re-layout is machine-checked to preserve the parse; non-trivial = accepted and compared field-for-field with the generating spec; distinct = distinct case"
 	r.Assume("goxmldsig canonicalisers used by the harness signer", "etree parser/canonical writer as harness DOM", "sizes stay below goxmldsig's 1000-element traversal cap")
 	cases := c08Cases(r)
 	r.State(len(cases))
